@@ -807,6 +807,14 @@ def check_api(case):
                                                                              "; new schema errors: %s" % sorted(new_err)[:2] if new_err else ""))
             return {"outcome": "rejected-left-empty-element"}
         return {"outcome": "rejected"}
+    # an accepted value is written in a form the schema can represent: that includes writing the attribute at all
+    # where the schema requires it (a value equal to an invented default must not simply be left out)
+    if after_xml != before_xml:
+        new_err = (XO.errors(after_xml) or set()) - (XO.errors(before_xml) or set())
+        miss = sorted(e for e in new_err if "required but missing" in e or e.startswith("attr-missing"))
+        if miss:
+            raise Violation("C11:api=%s:accepted-but-required-attribute-missing" % name,
+                            "%s was accepted and left %s | %s" % (desc, miss[:2], _diff(before_xml, after_xml)))
     # every attribute value that is new in the part must be valid for the type the schema declares for it
     w = M.world()
     new_attrs = _attr_triples(after_xml) - _attr_triples(before_xml)
